@@ -744,7 +744,7 @@ def scriptOp (st : St) (op : String × Nat × Nat × Nat) : St :=
 
 def liveFuel : Nat := 4000
 
-def doIter (st : St) (which u script : String) : St × String :=
+def doIter (st : St) (which u script : String) (over : Bool := false) : St × String :=
   match u.toNat? with
   | none => (st, "bad-op")
   | some u =>
@@ -757,7 +757,12 @@ def doIter (st : St) (which u script : String) : St × String :=
     | none => (st, "hang")
     | some (st', log) =>
       let ys := log.map fun x => if st.directed && which == "in" then (x.1.2.1, x.1.1, x.1.2.2) else x.1
-      ({ st' with sres := [] }, s!"yield={showEdges ys} res=[{",".intercalate st'.sres}]")
+      -- a second iterator over the same list was stepped once before the loop (or sent past the end with `nth`: `over`)
+      -- and is drained now: an iterator is a position, it goes on from there in the list as it is now
+      let l0 := sel st u
+      let p := if over then l0.length else (if l0.isEmpty then 0 else 1)
+      let rest := ((sel st' u).drop p).map fun (k, e) => if st.directed && which == "in" then (k, u, e) else (u, k, e)
+      ({ st' with sres := [] }, s!"yield={showEdges ys} res=[{",".intercalate st'.sres}] it2={showEdges rest}")
 
 /-- a search / ordering whose closure runs a script (C20) -/
 def doLiveSearch (st : St) (isOrder : Bool) (kind dir root target method mode : String) : St × String :=
@@ -871,9 +876,9 @@ def step (st : St) (line : String) : St × String :=
     if method.contains '@' then doLiveSearch st true kind dir root "-" method mode
     else if mode.contains '+' then (st, doOrderStages st kind dir root method (mode.splitOn "+"))
     else (st, doOrder st kind dir root method mode)
-  | ["iter", which, u, script] => doIter st which u script
-  -- the same loop driven by the iterator's internal iteration (`for_each`): the same sequence of `next` calls
-  | ["iter", which, u, script, "fold"] => doIter st which u script
+  -- `fold`: the loop is driven by the iterator's internal iteration (`for_each`): the same sequence of `next` calls;
+  -- `over`: the second, suspended iterator was sent past the end of the list with `nth` first
+  | "iter" :: which :: u :: script :: flags => doIter st which u script (flags.contains "over")
   | ["macro", arg] => doMacro st arg
   | ["cmp", k1, v1, k2, v2] => match k1.toNat?, v1.toInt?, k2.toNat?, v2.toInt? with
     | some k1, some v1, some k2, some v2 => (st, doCmp k1 v1 k2 v2)
